@@ -406,6 +406,54 @@ fn main() {
             rep.distinct_many(evals.iter().map(|e| hash64(&e.slots)));
         }
     }
+    // N = 16: sixteen compatible real slots with one replayed nullifier (every pair of slots)
+    // and with two simultaneous replays (every pair of slot pairs): checks that accumulate
+    // collision flags instead of constraining each pair must not let two violations cancel
+    {
+        let n = 16usize;
+        let w = build_priv_wrapper(n, &leaf.data.common);
+        let cx = Cx::new(&w.data);
+        let base: Vec<Slot> = (0..n)
+            .map(|i| {
+                let mut sl = al.slot(&vec![1, 0, 0, 0, 1 + i % 2, 2 - i % 2, 1 + i % 2, 1, 0, 0]);
+                sl.nullifier = dig(2000 + i as u64);
+                sl.pre = dig(2100 + i as u64);
+                sl
+            })
+            .collect();
+        let pairs: Vec<(usize, usize)> = (0..n).flat_map(|i| (i + 1..n).map(move |j| (i, j))).collect();
+        let mut vectors: Vec<Vec<Slot>> = vec![base.clone()];
+        for &(i, j) in &pairs {
+            let mut v = base.clone();
+            v[j].nullifier = v[i].nullifier;
+            vectors.push(v);
+        }
+        for (a, &(i, j)) in pairs.iter().enumerate() {
+            for &(k, l) in &pairs[a + 1..] {
+                if thorough || (a + k + l) % 2 == 0 || (k * n + l).abs_diff(i * n + j) > 60 {
+                    let mut v = base.clone();
+                    v[j].nullifier = v[i].nullifier;
+                    if l != j {
+                        v[l].nullifier = v[k].nullifier;
+                    } else {
+                        v[k].nullifier = v[i].nullifier;
+                    }
+                    vectors.push(v);
+                }
+            }
+        }
+        let evals = eval_vectors(&w, &cx, &vectors);
+        for e in &evals {
+            per_run_oracles(e, &r, "N16-replays");
+        }
+        let acc = evals.iter().filter(|e| e.accept).count() as u64;
+        total += evals.len() as u64;
+        accepted += acc;
+        set_sizes.insert("N16-replays".to_string(), json!({"n": n, "vectors": evals.len(), "accepted": acc}));
+        for rep in &reports {
+            rep.distinct_many(evals.iter().map(|e| hash64(&e.slots)));
+        }
+    }
     // larger N: seeded, labelled sampled
     let mut sampled = 0u64;
     {
